@@ -19,11 +19,14 @@ DECLINED = ["'picks some other running stream when one exists' beyond the reject
             "exactly-once callback over repeated / overwritten requests (histories)"]
 ASSUMPTIONS = ["C14 for the unit re-association performed by ABTI_thread_set_associated_pool"]
 RULES_DOC = dict(common.SHARED_DOC)
+RULES_DOC["X9"] = common.X9_DOC
 RULES_DOC["X8"] = common.X8_DOC
 RULES_DOC["R6"] = "= C12.R4: revive clears every pending request (a migration request that was never served does not survive into the revived run)"
 RULES_DOC["X4"] = common.X4_DOC
 RULES_DOC["R7"] = "= C06.R1/R3/R4: a unit that migrates inside a switch is counted on the right pool before and after (the migration target can be joined)"
 RULES_DOC["R8"] = "migrate_to_sched / migrate_to_xstream reject a unit that already is in ANY pool of the target scheduler: the comparison with the unit's pool sits inside a loop over the scheduler's pools (sibling agreement)"
+RULES_DOC["R11"] = "= C16.R5: the id under which the migration record (callback, target pool) is kept in the unit's key table is not handed out to a user key"
+RULES_DOC["R12"] = "= C17.R8: the stream list that ABT_thread_migrate scans for a target is linked completely in both directions on every insertion path"
 RULES_DOC["R10"] = "= C12.R12: the request dispatcher tests REQ_MIGRATE bitwise: a migration request is honoured although a join or cancel request is pending on the same unit"
 RULES_DOC["R9"] = "a migration callback given in the creation attribute is recorded whenever it is non-NULL (its installation depends on the callback pointer only, not on whether the unit is migratable yet -- migratability can be switched on later)"
 RULES_DOC.update({
@@ -411,6 +414,7 @@ def rule_R9(P, rep):
 
 
 def run(P, rep, tier):
+    common.rule_X9(P, rep, fields=[('ABTI_thread', 'request')])
     common.rule_X8(P, rep)
     common.rule_X4(P, rep)
     common.run_shared(P, rep, which=("X2",))
@@ -426,3 +430,6 @@ def run(P, rep, tier):
     rule_R8(P, rep)
     rule_R9(P, rep)
     common.borrow(rep, P, C12.rule_R12, "R10")
+    from . import C16, C17
+    common.borrow(rep, P, C16.rule_R5, "R11")
+    common.borrow(rep, P, C17.rule_R8, "R12")
